@@ -18,6 +18,7 @@ EQUIV_DEPS = {
     'Equiv_cdef': ['Gen_bitstring_h_ast'],
     'Equiv_gosper': ['Gen_gosper_c'],
     'Equiv_guards': ['Gen_util_guards'],
+    'Equiv_zmat': ['Gen_zmatrix_py'],
 }
 
 TRUSTED_BASE_COMMON = [
